@@ -33,7 +33,7 @@ PID = "G10"
 PKG = "yv-g10"
 
 TIERS = {
-    "quick": dict(gen="Gen_XTrace_quick.cfg", nrandom=1200, timeout=600),
+    "quick": dict(gen="Gen_XTrace_quick.cfg", nrandom=2000, timeout=600),
     "thorough": dict(gen="Gen_XTrace_thorough.cfg", nrandom=30000, timeout=2400),
 }
 
